@@ -41,6 +41,9 @@ func init() {
 	register("C06", func(s *simrt.Sim) *Result { return RunPass(s, PassProfile{Name: "C06", Faults: true}) })
 	register("C06clean", func(s *simrt.Sim) *Result { return RunPass(s, PassProfile{Name: "C06clean"}) })
 	register("C20", func(s *simrt.Sim) *Result { return RunPass(s, PassProfile{Name: "C20", BadMetadata: true}) })
+	register("C20route", func(s *simrt.Sim) *Result {
+		return RunRoute(s, RouteProfile{Name: "C20route", BadMetadata: true, Cleanup: true})
+	})
 	register("C07", RunWhole)
 	register("C09", RunGossip)
 	register("C19", RunTLS)
